@@ -6,12 +6,12 @@ int G_ge_ret; unsigned G_ge_calls;
 #endif
 /* OS source: fills the buffer and returns 0, or returns -1 */
 int getentropy(void *buffer, size_t length)
-REQUIRES(length <= 256 && W_OK(buffer, length))
+REQUIRES(length <= 256 && WR_OK(buffer, length))
 ASSIGNS(length != 0: OBJ_UPTO((uint8_t *)buffer, length); G_ge_ret, G_ge_calls)
 ENSURES((RET == 0 || RET == -1) && G_ge_ret == RET && G_ge_calls == OLD(G_ge_calls) + 1)
 ;
 int rand_bytes(uint8_t *buf, size_t len)
-REQUIRES(buf == NULL || len == 0 || len > 256 || W_OK(buf, len))
+REQUIRES(buf == NULL || len == 0 || len > 256 || WR_OK(buf, len))
 ASSIGNS(buf != NULL && len >= 1 && len <= 256: OBJ_UPTO(buf, len); G_ge_ret, G_ge_calls)
 ENSURES(RET == 1 || RET == -1)
 /* refuses NULL, empty and over-long requests without touching the OS source */
